@@ -11,6 +11,10 @@ from ..exact import fzero, finf, fninf, fnan, raw_json as J, raw_unjson as U
 ID = "C37"
 LEVEL = "exploration"
 CASE_TIMEOUT = 300.0
+LEVEL_TEXT = ("Differential generated-input search: identical operation streams in a pure-Python-backend process and in a process whose "
+              "BACKEND == 'gmpy'. PARTIAL: the gmpy2 C extension is not installable in this sandbox, so the gmpy side runs against a "
+              "behavioural stand-in for the gmpy2 names mpmath uses (vfw/shims/gmpy2.py); every gmpy-specific branch of the repository "
+              "is exercised, divergences caused inside gmpy2 itself are out of reach. Not a proof of absence.")
 RULE = ("A case is a stream of 6..14 libmp / mp operations with generated operands (mantissa classes of the core "
         "generators: short, long, all-ones, ties, huge exponents, specials), precisions 1..1200 and all five rounding "
         "modes, executed (a) in a process running /repo on its pure-Python integer backend (MPMATH_NOGMPY=1) and (b) in a "
